@@ -143,7 +143,7 @@ fn base_pool_srcs() -> Vec<String> {
         "[9007199254740992.0]", "[1, 2, 3]", "[2]", "[0-9223372036854775807-1]", "[0-2^63]", "[0-9223372036854775808.0]",
         "[9223372036854775807]", "[2^63-1]", "[1, 0-9223372036854775807-1]", "[1.0, 0-2^63]", "V(0-9223372036854775807-1)", "V(0-2^63)",
         "V(0-9223372036854775808.0)", "V(9223372036854775807)", "V(2^63-1)", "V()", "V(1, 2)", "V(1.0, 2)", "V(1, 3)", "V(1/2)", "V(0.5)",
-        "V(0.0/0.0)", "{}", "{1: 2}", "{1.0: 2}", "{1: 3}", "{1: 2, \"a\": 3}",
+        "V(0.0/0.0)", "{}", "{1: 0.0/0.0}", "{1: [0.0/0.0]}", "{1: {2: 0.0/0.0}}", "[{1: 0.0/0.0}]", "[1, {2: [0.0/0.0]}]", "{0.0/0.0: 1}", "{1: 2}", "{1.0: 2}", "{1: 3}", "{1: 2, \"a\": 3}",
     ] {
         v.push(s(x));
     }
